@@ -26,7 +26,8 @@ def _classpath():
 
 
 def _java_cmd(heap='2g', depth_first=False):
-    cmd = ['java', '-XX:+UseParallelGC', '-Xmx' + heap, '-Xss16m']
+    import tempfile
+    cmd = ['java', '-XX:+UseParallelGC', '-Xmx' + heap, '-Xss16m', '-Djava.io.tmpdir=' + tempfile.gettempdir()]
     if depth_first:
         cmd.append('-Dtlc2.tool.queue.IStateQueue=StateDeque')
     cmd += ['-cp', _classpath(), 'tlc2.TLC']
